@@ -32,15 +32,15 @@ Qed.
 
 Open Scope Z_scope.
 (** on well-formed trees the order of the operands of a commutative-associative operator does not influence the value of the result *)
-Lemma operand_order_value : forall (Q : string -> Z -> bool -> bool -> bool) op k args args' fuel r r',
-  aop_of op = Some k -> Permutation args args' -> wf Q (EOp op args) = true -> wf Q (EOp op args') = true ->
+Lemma operand_order_value : forall (ac : bool) (Q : string -> Z -> bool -> bool -> bool) op k args args' fuel r r',
+  aop_of op = Some k -> Permutation args args' -> wf ac Q (EOp op args) = true -> wf ac Q (EOp op args') = true ->
   simp fuel (EOp op args) = Ok r -> simp fuel (EOp op args') = Ok r' ->
   size r = size r' /\ forall rho mu iota, eval rho mu iota r = eval rho mu iota r'.
 Proof.
-  intros Q op k args args' fuel r r' K P W W' H H'.
-  destruct (simp_sound_frag1 Q fuel _ _ W H) as (_ & S1 & E1). destruct (simp_sound_frag1 Q fuel _ _ W' H') as (_ & S2 & E2).
-  destruct (wf_op_inv Q _ _ W (aop_noshift _ _ K)) as (Wl & a & l & -> & _ & Sl). destruct (wf_op_inv Q _ _ W' (aop_noshift _ _ K)) as (Wl' & a' & l' & -> & _ & Sl').
-  assert (Pa : 0 < size a) by (inversion Wl; subst; apply (wf_range Q (fun _ => 0) (fun _ => 0) (fun _ _ => 0)); assumption).
+  intros ac Q op k args args' fuel r r' K P W W' H H'.
+  destruct (simp_sound_frag1 ac Q fuel _ _ W H) as (_ & S1 & E1). destruct (simp_sound_frag1 ac Q fuel _ _ W' H') as (_ & S2 & E2).
+  destruct (wf_op_inv ac Q _ _ W (aop_noshift _ _ K)) as (Wl & a & l & -> & _ & Sl). destruct (wf_op_inv ac Q _ _ W' (aop_noshift _ _ K)) as (Wl' & a' & l' & -> & _ & Sl').
+  assert (Pa : 0 < size a) by (inversion Wl; subst; apply (wf_range ac Q (fun _ => 0) (fun _ => 0) (fun _ _ => 0)); assumption).
   assert (Sa : size a' = size a).
   { assert (I : In a' (a :: l)) by (apply (Permutation_in a' (Permutation_sym P)); left; reflexivity).
     unfold all_size in Sl. rewrite Forall_forall in Sl. apply Sl. exact I. }
